@@ -71,10 +71,17 @@ PROPS = {
             "cxxflags": ["-frounding-math", "-ffp-contract=off"], "ref_sources": FPREF, "optional_classes": ["zero_sign_differs_from_libm"]},
     "C12": {"id": "C12", "source": "c12.cpp", "files": FLT_VEC_FILES + SCALAR_FILES[8:], "min_configs": {"quick": 8, "thorough": 30},
             "cxxflags": ["-frounding-math", "-ffp-contract=off"], "ref_sources": FPREF},
+    "C13": {"id": "C13", "source": "c13.cpp", "files": FLT_VEC_FILES + SCALAR_FILES[8:], "min_configs": {"quick": 8, "thorough": 30},
+            "cxxflags": ["-frounding-math", "-ffp-contract=off"], "ref_sources": FPREF},
     "C02": {"id": "C02", "source": "c02.cpp", "files": INT_VEC_FILES + FLT_VEC_FILES, "min_configs": {"quick": 8, "thorough": 30}, "digest_binding": True},
 }
 
 MANIFEST_TEXT = {
+    "C13": {
+        "technique": "property-based testing: strided/exhaustive sweep of all binary32 bit patterns, stratified binary64 patterns (every exponent, both NaN kinds, both signs), special-value cross products + rapidcheck pairs, bit-field oracle cross-checked against <cmath>",
+        "level": "Generated-input search over every float vector type and the scalar overloads in every configuration: fpclassify/isnan/isinf/isfinite/isnormal/signbit on every 1019th binary32 pattern (quick) or all 2^32 (thorough) and on every binary64 exponent x mantissa boundary x sign; isgreater/isgreaterequal/isless/islessequal/islessgreater/isunordered on the special-value cross product (zeros, subnormals, infinities, quiet and signalling NaNs of both signs, adjacent values) plus random pairs. Oracle: classification from the exponent/mantissa fields (must agree with std::fpclassify, otherwise the run reports a harness error), ordered comparison on a sign-magnitude key with NaN -> false.",
+        "note": "Trusted: the bit-field oracle and glibc's fpclassify constants, host CPU, compilers. Pairs are sampled; unary predicates are exhaustive for binary32 only in the thorough tier.",
+    },
     "C12": {
         "technique": "property-based testing: strided/exhaustive binary32 sweeps, value-class x exponent grids with a different exponent in every lane, special-value cross products + rapidcheck, differential against glibc (frexp/ldexp/scalbn/ilogb/logb, x-trunc(x), fdim) with a binary64 second opinion for binary32 ldexp, validity predicates for fmax/fmin",
         "level": "Generated-input search over every float vector type and the scalar overloads in every configuration: frexp/ilogb/logb/frac on every 1021st binary32 pattern (quick) or all 2^32 (thorough) and stratified binary64; ldexp/scalbn on every value class x exponents {INT_MIN, -2^20, -400..400, 2^20, INT_MAX, boundary exponents}; fmax/fmin/fdim on the special-value cross product. frexp: significand and exponent equal to libm, zeros return themselves bit-for-bit with exponent 0, inf/NaN return themselves; ldexp/scalbn bit-equal to glibc; ilogb specials FP_ILOGB0/FP_ILOGBNAN/INT_MAX; fmax/fmin: the other operand bit-for-bit when exactly one operand is a (quiet) NaN, otherwise bit-equal to an operand and correctly ordered.",
